@@ -584,16 +584,14 @@ func listPageInner(ctx context.Context, tx *bolt.Tx, prefix string, after string
 	var keys []string
 
 	prefixBytes := []byte(prefix)
-	seekPrefix := []byte(filepath.Join(prefix, after))
-	if after == "" {
-		seekPrefix = prefixBytes
-	} else if !bytes.HasPrefix(seekPrefix, prefixBytes) {
-		// filepath.Join has the very unfortunate behavior of trimming the
-		// trailing slash when after=".". When e.g., prefix=foo/, this gives
-		// us seekPrefix=foo, which fails the initial HasPrefix check,
-		// skipping all results.
-		seekPrefix = prefixBytes
-	}
+
+	// Every key that sorts before prefix+after yields an entry (the key
+	// itself or its truncated folder) that is <= after, so this is the
+	// furthest we may seek. The value of after must not be cleaned up as a
+	// path: that can move the seek position behind entries that are still
+	// greater than after (e.g., after="x/../y"), or in front of the prefix
+	// (e.g., after=".").
+	seekPrefix := []byte(prefix + after)
 
 	// Assume bucket exists and has keys
 	c := tx.Bucket(dataBucketName).Cursor()
